@@ -1,7 +1,7 @@
 """C01 - Gale-Shapley returns a feasible matching with no blocking pair (both orientations)."""
 import itertools, json, os
 from harness import gslib
-from harness.common import pmap, lean_query, guard, VERIF, safe_judge
+from harness.common import pmap, lean_query, guard, VERIF, safe_judge, pmap_singles
 
 LEVEL = "proof"
 ENTRY = "socialchoicekit.deterministic_matching.GaleShapley.scf"
@@ -134,9 +134,9 @@ def run_batch(R, insts, oriented, zero, tag, deadline):
     for case, res in zip(cases, results):
         if "hang" in res or "exc" in res or "crash" in res:
             # re-run this chunk one instance at a time to find the culprit
-            singles = pmap("c01", "impl_batch", [{"insts": [I], "oriented": oriented, "zero_indexed": zero} for I in case["insts"]],
-                           deadline=10.0)
-            rs = [(s["results"][0] if "results" in s else ({"hang": True} if "hang" in s else {"exc": s.get("exc", "crash"), "msg": s.get("msg", "")})) for s in singles]
+            singles = pmap_singles("c01", "impl_batch", [{"insts": [I], "oriented": oriented, "zero_indexed": zero} for I in case["insts"]],
+                           deadline=10.0, R=R)
+            rs = [(s["results"][0] if "results" in s else ({"skipped": True} if "skipped" in s else {"hang": True} if "hang" in s else {"exc": s.get("exc", "crash"), "msg": s.get("msg", "")})) for s in singles]
         else:
             rs = res["results"]
         for I, r in zip(case["insts"], rs):
